@@ -219,3 +219,47 @@ Proof.
   - apply (fmt_join_frun fs 0 true (-1) (new_lexer out) Hlx). reflexivity.
   - apply rems_split. apply diff_file_text_nl.
 Qed.
+
+(* ---- (8) the same for the token list AllTokens returns ------------------------------------------------------ *)
+Lemma lex_run_prefix : forall s q sm, lex_run s q sm -> forall fuel ts ds, all_tokens_loop fuel true s = (ts, ds, false) ->
+  exists c ts1 fuel1, ts = c ++ ts1 /\ map etok c = q /\ all_tokens_loop fuel1 true sm = (ts1, ds, false).
+Proof.
+  induction 1 as [s|s t s1 q0 s' E Hrun IH]; intros fuel ts ds Hl.
+  - exists [], ts, fuel. auto.
+  - destruct fuel as [|f]; [discriminate|]. cbn [all_tokens_loop] in Hl. rewrite E in Hl.
+    destruct (all_tokens_loop f true s1) as [[ts1 ds1] b1] eqn:E1. injection Hl as <- <- ->.
+    destruct (IH f ts1 ds1 E1) as (c & ts2 & f2 & -> & Hm & Hl2).
+    exists (t :: c), ts2, f2. split; [reflexivity|]. split; [cbn [map]; rewrite Hm; reflexivity|exact Hl2].
+Qed.
+
+Fixpoint tok_lines (inp : list N) (ts : list token) (es : list (bool * entry)) (rs : list (list N)) : Prop :=
+  match es, rs with
+  | [], [] => True
+  | (b, e) :: er, R :: rr =>
+    exists c t ts', ts = c ++ t :: ts' /\ map etok c = (if b then [eol_tok] else []) ++ entry_toks e /\ ty t = EOL /\
+      (forall C, inp = C ++ R -> Z.of_nat (count_nl C) = fst (tstart t) + 1) /\ tok_lines inp ts' er rr
+  | _, _ => False
+  end.
+
+Lemma frun_lines_tokens inp : forall es rs s fuel ts, frun_lines inp s es rs ->
+  all_tokens_loop fuel true s = (ts, [], false) -> tok_lines inp ts es rs.
+Proof.
+  induction es as [|[b e] er IH]; intros rs s fuel ts Hf Hl; destruct rs as [|R rr]; cbn [frun_lines tok_lines] in *; try contradiction; [exact I|].
+  destruct Hf as (sm & t & s1 & Hq & E & Hty & HR & Hline & Hrest).
+  destruct (lex_run_prefix _ _ _ Hq fuel ts [] Hl) as (c & ts1 & f1 & -> & Hm & Hl1).
+  destruct f1 as [|f]; [discriminate|]. cbn [all_tokens_loop] in Hl1. rewrite E in Hl1.
+  destruct (all_tokens_loop f true s1) as [[ts2 ds2] b2] eqn:E2. injection Hl1 as <- -> ->.
+  exists c, t, ts2. split; [reflexivity|]. split; [exact Hm|]. split; [exact Hty|]. split; [exact Hline|].
+  apply (IH rr s1 f ts2 Hrest E2).
+Qed.
+
+Theorem fmt_output_tok_lines fs ts : Forall frag_lx fs ->
+  all_tokens true (fmt_join (diff_file fs 0) true (-1)) = LexOk ts ->
+  tok_lines (fmt_join (diff_file fs 0) true (-1)) ts (entries fs 0 true (-1)) (rems (diff_file fs 0)).
+Proof.
+  intros Hlx Hl. pose proof (fmt_output_eol_lines fs Hlx) as Hf. cbv zeta in Hf.
+  set (out := fmt_join (diff_file fs 0) true (-1)) in *. unfold all_tokens in Hl.
+  destruct (all_tokens_loop (S (S (length out))) true (new_lexer out)) as [[ts0 ds] b] eqn:E.
+  destruct b; [discriminate|]. destruct ds; [|discriminate]. injection Hl as ->.
+  exact (frun_lines_tokens out _ _ _ _ _ Hf E).
+Qed.
